@@ -167,7 +167,12 @@ func c7memo(ctx *eval.Ctx, _ []eval.Value) (eval.Value, error) {
 // calls of one history (each call with its own context): the call overwrites
 // the history's buffer for that variable with Content and binds it; in
 // isolation it binds a fresh copy.
-type C7Buf struct{ Content interface{} }
+type C7Buf struct {
+	Content interface{}
+	// Len > 0: the call binds only the first Len elements (a sub-slice with
+	// spare capacity behind it); the rest of the buffer is the caller's own
+	Len int
+}
 
 var c7keep []interface{} // isolated copies stay reachable so that no address is ever reused
 
@@ -197,6 +202,9 @@ func c7resolve(vals []interface{}, bufs map[int]interface{}) []interface{} {
 			}
 			copy(dst, c)
 			out[i] = dst
+			if b.Len > 0 && b.Len < len(dst) {
+				out[i] = dst[:b.Len]
+			}
 		case []string:
 			var dst []string
 			if bufs == nil {
@@ -212,12 +220,52 @@ func c7resolve(vals []interface{}, bufs map[int]interface{}) []interface{} {
 			}
 			copy(dst, c)
 			out[i] = dst
+			if b.Len > 0 && b.Len < len(dst) {
+				out[i] = dst[:b.Len]
+			}
 		}
 	}
 	return out
 }
 
 var c7keepMu sync.Mutex
+
+// c7OnBufferModified is called when a call left the caller's list buffer
+// (including the part behind the bound prefix) different from what the caller
+// wrote into it: the engine only READS what it is handed.
+var c7OnBufferModified func(prog, call, detail string)
+
+func c7checkBuffers(p *C7Prog, c C7Call, resolved []interface{}) {
+	if c7OnBufferModified == nil {
+		return
+	}
+	for i, v := range c.Vals {
+		b, ok := v.(C7Buf)
+		if !ok {
+			continue
+		}
+		switch content := b.Content.(type) {
+		case []int64:
+			full := resolved[i].([]int64)
+			full = full[:cap(full)]
+			for k := range content {
+				if k < len(full) && full[k] != content[k] {
+					c7OnBufferModified(p.Name, c.Name, fmt.Sprintf("int list element %d (bound length %d) changed from %d to %d", k, len(resolved[i].([]int64)), content[k], full[k]))
+					return
+				}
+			}
+		case []string:
+			full := resolved[i].([]string)
+			full = full[:cap(full)]
+			for k := range content {
+				if k < len(full) && full[k] != content[k] {
+					c7OnBufferModified(p.Name, c.Name, fmt.Sprintf("string list element %d (bound length %d) changed from %q to %q", k, len(resolved[i].([]string)), content[k], full[k]))
+					return
+				}
+			}
+		}
+	}
+}
 
 type C7Prog struct {
 	SeqOnly bool // the calls share a caller-side buffer: sequential histories only
@@ -308,6 +356,8 @@ func C07Corpus() []*C7Prog {
 				tryc("TryEval#all", nil, i64(9, 9, 9, 9)...), tryc("TryEval#all-2", nil, i64(-40, -50, -6, -7)...)}},
 		{Name: "mid-stack(9..16)", Src: mid, Vars: c7vars("n0", "n1", "n2", "n3"), Opt: allOn,
 			Calls: []C7Call{evalc("Eval#1", i64(100, 200, 3, 4)...), tryc("TryEval#all", nil, i64(9, 9, 9, 9)...), tryc("TryEval#n1-unavailable", []bool{true, false, true, true}, i64(70, 80, 1, 2)...)}},
+		{Name: "string-list-literals", Src: "(or (in s0 (\"a\" \"b\" \"c\")) (in s1 (\"a\" \"b\" \"c\" \"d\" \"e\")) (overlap ls2 (\"x\" \"y\" \"z\")))", Vars: []term.VarDecl{{Name: "s0", Ty: term.TS}, {Name: "s1", Ty: term.TS}, {Name: "ls2", Ty: term.TSL}}, Opt: off,
+			Calls: []C7Call{evalc("Eval#miss", "q", "r", []string{"w"}), evalc("Eval#hit-last", "q", "e", []string{"w"}), evalc("Eval#miss2", "zz", "yy", []string{"v", "u"}), tryc("TryEval#s1-unavailable", []bool{true, false, true}, "q", "e", []string{"z"})}},
 		{Name: "large-list-builtins", Src: "(and (overlap l0 (" + strings.Join(big, " ") + ")) (in n1 (3 1 2)))", Vars: c7vars("l0", "n1"), Opt: allOn,
 			Calls: append([]C7Call{evalc("Eval#hit", []int64{5, 1001}, int64(2)), evalc("Eval#miss", []int64{5, 6}, int64(2)),
 				tryc("TryEval#n1-unavailable", []bool{true, false}, []int64{1001}, int64(1))}, insp[0])},
@@ -369,6 +419,10 @@ func C07Corpus() []*C7Prog {
 					evalc("Eval#c", int64(7), bi(1), "k7", bs(1)),
 					evalc("Eval#d", int64(5), bi(1000), "k1000", bs(1000)),
 					tryc("TryEval#e", nil, int64(4), bi(1), "k1003", bs(1000)),
+					// only a prefix of the buffer is bound (probes absent from the prefix,
+					// present / absent behind it); the next call binds the whole buffer again
+					evalc("Eval#prefix", int64(999), C7Buf{Content: mkI(1), Len: n - 1}, "zz", C7Buf{Content: mkS(1), Len: n - 1}),
+					evalc("Eval#whole-after-prefix", int64(1+(n-1)*3), bi(1), fmt.Sprint("k", 1+(n-1)*3), bs(1)),
 				}})
 		}
 	}
@@ -480,6 +534,7 @@ func c7do(e *eval.Expr, p *C7Prog, c C7Call, point func(string), bufs map[int]in
 	} else {
 		v, err = e.TryEval(&eval.Ctx{VariableFetcher: f})
 	}
+	c7checkBuffers(p, c, f.vals)
 	return fmt.Sprintf("%T(%v) err=%v trace=%v notes=%v", v, v, err, traceStr(f.trace), f.notes)
 }
 
@@ -515,12 +570,15 @@ func c07(r *rep.Run) {
 		depth, bound2, bound3 = 5, 5, 3
 		r.SetBudget(1800e9)
 	}
-	r.Rule = "one shared compiled Expr per corpus program (13 programs + a variable-free program whose operator keeps per-request state in the context's own store (contexts without a fetcher / with their own store) + text-converting operators fed the same text in either order + 8 sequential-only programs whose list bindings reuse one caller-side buffer with changing contents, lengths 3/64/100/130; covering a re-entrant operator that evaluates its own expression, n-ary/binary/fast operators, cond, short-circuit chains, stack classes 8/16/large, large-list builtins, failures; events off/ReportEvent/Debug). (1) every sequential history of calls {Eval x bindings, TryEval x splits, Dump, DumpTable(skip/all)} up to the depth bound; (2) every interleaving of 2 threads x 1 call (all ordered pairs of evaluation calls), 2 threads x 2 calls and 3 threads x 1 call (all triples), each up to the stated preemption bound (iterative context bounding; executions always run to completion) under a cooperative scheduler whose points are the fetcher's Get/Cached, registered-operator entry, and call begin/end. Invariant after every call: the public view of the program (Dump + full DumpTable) is unchanged (changes of the reflective deep hash of the Expr are counted and reported, not judged: scratch state may live there); oracle per call: outcome (value, error, ordered fetch/operator trace, argument-buffer stability across a yield) equals the outcome of the same call in isolation on a freshly compiled program IN A FRESH PROCESS. (3) auxiliary: the same call menus free-running under the Go race detector. non-trivial = schedules with at least one context switch inside a call"
+	r.Rule = "one shared compiled Expr per corpus program (13 programs + a variable-free program whose operator keeps per-request state in the context's own store (contexts without a fetcher / with their own store) + text-converting operators fed the same text in either order + 8 sequential-only programs whose list bindings reuse one caller-side buffer with changing contents, lengths 3/64/100/130; covering a re-entrant operator that evaluates its own expression, n-ary/binary/fast operators, cond, short-circuit chains, stack classes 8/16/large, large-list builtins, failures; events off/ReportEvent/Debug). (1) every sequential history of calls {Eval x bindings, TryEval x splits, Dump, DumpTable(skip/all)} up to the depth bound; (2) every interleaving of 2 threads x 1 call (all ordered pairs of evaluation calls), 2 threads x 2 calls and 3 threads x 1 call (all triples), each up to the stated preemption bound (iterative context bounding; executions always run to completion) under a cooperative scheduler whose points are the fetcher's Get/Cached, registered-operator entry, and call begin/end. Invariant after every call: the public view of the program (Dump + full DumpTable) is unchanged (changes of the reflective deep hash of the Expr are counted and reported, not judged: scratch state may live there); oracle per call: outcome (value, error, ordered fetch/operator trace, argument-buffer stability across a yield) equals the outcome of the same call in isolation on a freshly compiled program IN A FRESH PROCESS. (2b) 200 calls on one shared Expr all held inside their first fetcher callback until every one is in flight, then released: each returns its isolated outcome; after every call the caller's list buffers (incl. the part behind a bound prefix) are what the caller wrote. (3) auxiliary: the same call menus free-running under the Go race detector. non-trivial = schedules with at least one context switch inside a call"
 	r.Assume = []string{"scheduling granularity is the environment callback (fetcher, registered operator), not the machine instruction; state shared between calls with no callback in between is caught by the deep-dump invariant and the race pass only",
 		"weak-memory effects are outside a cooperative scheduler (race detector pass is the backstop)"}
 	progs := C07Corpus()
 	var mu sync.Mutex
 	outcomes := map[string]bool{}
+	c7OnBufferModified = func(prog, call, detail string) {
+		r.Violate("caller-buffer-modified", prog+call, sprintf("%s: %s wrote into the list the caller bound: %s", prog, call, detail), map[string]interface{}{"program": prog, "call": call, "detail": detail})
+	}
 	// isolated outcomes
 	// Each isolated outcome comes from a FRESH PROCESS (`check c07iso`): state
 	// the library might keep at package level cannot be reset from inside, so
@@ -708,11 +766,98 @@ func c07(r *rep.Run) {
 	r.Cov["distinct_isolated_outcomes"] = len(outcomes)
 	r.Add(histories+schedules, hcalls+points, hcalls+schedules, hcalls+schedules, switched)
 
+	// (2b) many calls in flight at once
+	c07MassOverlap(r, progs, iso)
 	// (3) race pass
 	fmt.Printf("schedules done at %.1fs\n", time.Since(r.Start).Seconds())
 	c07Race(r)
 	fmt.Printf("race pass done at %.1fs\n", time.Since(r.Start).Seconds())
 	r.Finish()
+}
+
+// c07MassOverlap: "any number of goroutines at once" — N calls on one shared
+// Expr are all held inside their first fetcher callback until every one of
+// them is in flight (a barrier, no clock), then released: each returns its
+// isolated outcome. A call that ends without reaching the barrier counts
+// towards it, so the barrier always opens.
+func c07MassOverlap(r *rep.Run, progs []*C7Prog, iso [][]string) {
+	const N = 200
+	var runs int64
+	for pi, p := range progs {
+		if p.SeqOnly || p.Light || len(p.Vars) == 0 {
+			continue
+		}
+		var evs []int
+		for ci, c := range p.Calls {
+			if (c.Kind == "eval" || c.Kind == "tryeval") && c.Store == "" {
+				evs = append(evs, ci)
+			}
+		}
+		if len(evs) == 0 {
+			continue
+		}
+		e, err := C7Compile(p)
+		if err != nil {
+			continue
+		}
+		var arrived int64
+		open := make(chan struct{})
+		var once sync.Once
+		check := func() {
+			if atomic.AddInt64(&arrived, 1) == N {
+				once.Do(func() { close(open) })
+			}
+		}
+		results := make([]string, N)
+		var wg sync.WaitGroup
+		stopDrain := make(chan struct{})
+		if e.EventChan != nil {
+			go func() { // a consumer, so that event-reporting programs never block on a full channel
+				for {
+					select {
+					case <-e.EventChan:
+					case <-stopDrain:
+						return
+					}
+				}
+			}()
+		}
+		for g := 0; g < N; g++ {
+			wg.Add(1)
+			go func(g int) {
+				defer wg.Done()
+				reached := false
+				point := func(label string) {
+					if !reached && (strings.HasPrefix(label, "get:") || strings.HasPrefix(label, "cached:")) {
+						reached = true
+						check()
+						<-open
+					}
+				}
+				results[g] = C7Do(e, p, p.Calls[evs[g%len(evs)]], point)
+				if !reached {
+					check()
+				}
+			}(g)
+		}
+		wg.Wait()
+		close(stopDrain)
+		runs += N
+		bad := 0
+		for g := 0; g < N; g++ {
+			ci := evs[g%len(evs)]
+			if results[g] != iso[pi][ci] {
+				if bad == 0 {
+					r.Violate("mass-overlap", p.Name, sprintf("%s: with %d calls in flight at once, %s returns a different outcome than in isolation", p.Name, N, p.Calls[ci].Name),
+						map[string]interface{}{"program": p.Src, "calls_in_flight": N, "call": p.Calls[ci].Name, "got": results[g], "isolated": iso[pi][ci]})
+				}
+				bad++
+			}
+		}
+	}
+	r.Cov["mass_overlap_calls"] = runs
+	r.Cov["mass_overlap_calls_in_flight"] = N
+	r.Add(0, runs, runs, runs, runs)
 }
 
 func histNames(p *C7Prog, h []int) []string {
